@@ -127,5 +127,25 @@ PROPS["C14"] = dict(
     assumptions=["__schema/__type are excluded (their cost is not documented)", "harness evaluator implements the documented definition"],
 )
 
+PROPS["C02"] = dict(
+    pkg="c02", race=False, level="exploration", prepare="exec_projects",
+    projects_quick=[("inputs", ["v0", "v3", "v5"])],
+    projects_thorough=[("inputs", ["v0", "v1", "v2", "v3", "v4", "v5"])],
+    quick=dict(shards=8, timeout=900), thorough=dict(shards=16, timeout=3000),
+    claim="differential testing of argument coercion on servers generated from /repo's templates (option vectors covering "
+          "nullable_input_omittable, return_pointers_in_unmarshalinput, call_argument_directives_with_null, struct_fields_always_pointers, "
+          "a map-backed input) against a reference implementation of the spec's input coercion: rapid draws, per input type, literals "
+          "and variables (defaults at argument/variable/input-field level, omitted vs explicit null, single-value-to-list, enums, custom "
+          "integer scalars, nested and recursive input objects) in three classes valid / invalid / lenient; the universal resolver "
+          "records the Go values it received (Omittable and map-backed absence observable); plus a direct sweep of every built-in "
+          "scalar unmarshaler over boundary numbers in every carrier form with an exact-rational equal-or-error oracle",
+    note="gqlparser validates literals and variables first; where gqlgen/gqlparser are more lenient than the spec the case is in the "
+         "lenient class (only 'equal or error' and 'no number silently changed' are asserted there)",
+    technique="property-based differential testing (rapid) against a reference coercion algorithm; three-valued expectations",
+    rule="evaluation = one field invocation on one vector, or one unmarshaler call; non-trivial = the case exercises a default, an "
+         "omitted-vs-null distinction, a list coercion, an enum/custom scalar or a rejection; distinct by (query, variables)",
+    assumptions=["harness reference coercion implements spec 3.x/6.1.2/6.4.1", "variables are decoded with UseNumber, as every transport does"],
+)
+
 # properties deliberately not claimed (reason); anything else missing from PROPS is "not built yet"
 NOT_CLAIMED = {}
